@@ -642,6 +642,13 @@ def m_unwrap_or_default(c):
         return z3.BoolVal(False)
     if t is not None and t.kind == 'adt' and t.name == 'Duration':
         return Struct('Duration', {0: Int(z3.BitVecVal(0, 64), False)})
+    if t is not None and t.kind == 'adt' and t.name in ('HashMap', 'BTreeMap', 'HashSet', 'BTreeSet', 'IndexMap'):
+        is_set = t.name.endswith('Set')
+        return Map(t.args[0].raw if t.args else None, t.args[1].raw if len(t.args) > 1 and not is_set else None, [], [], is_set=is_set, ordered=t.name.startswith('BTree'))
+    if t is not None and t.kind == 'adt' and t.name in ('Vec', 'VecDeque'):
+        return Seq(t.args[0].raw if t.args else None, [])
+    if t is not None and t.kind == 'adt' and t.name == 'String':
+        return Str(text='')
     raise Unsupported('unwrap_or_default for ' + str(c.dest_ty))
 
 
